@@ -207,6 +207,11 @@ def oracle(case, obs):
                     ph, i = e[0], int(e[1:])
                     if i not in reg[ph]:
                         return Failure(case, where + f"trigger {e} ran without being registered (or twice)", "run-unregistered")
+                    if reg[ph][0] != i:
+                        return Failure(case, where + f"{e} ran while trigger {reg[ph][0]} of the same phase, registered earlier "
+                                       f"(pending, in registration order: {reg[ph]}), had not run — triggers of a phase run in "
+                                       "registration order, including those registered while that phase is firing",
+                                       "phase-registration-order")
                     reg[ph].remove(i)
                     if ph == "b":
                         ran_before.append(i)
@@ -324,6 +329,23 @@ def gen(rng, tier):
               {"acts": [], "fin": "n"}, {"acts": [], "fin": "n"}]
         for tail in ([["fd", 0, True]], [["fd", 0, False], ["fire"]], []):
             cases.append({"bodies": b3, "ops": [["add", "b", 0], ["add", "d", 4], ["add", "a", 4], ["fire"]] + tail})
+    # a trigger registers ANOTHER trigger into the phase that is currently firing, with earlier-registered triggers of that
+    # phase still pending: registration order is execution order (the new one runs last), at every position
+    for ph in "bda":
+        for n in (3, 4, 5):
+            for pos in range(n):
+                for extra in (1, 2):
+                    b4 = [{"acts": [], "fin": "n"} for _ in range(n + 2)]
+                    b4[pos] = {"acts": [["add", ph, n + x] for x in range(extra)], "fin": "n"}
+                    if extra == 2:
+                        b4[n] = {"acts": [["add", ph, n + 1]], "fin": "n"} if pos % 2 else b4[n]
+                    ops = [["add", ph, i] for i in range(n)] + [["fire"], ["fire"]]
+                    cases.append({"bodies": b4, "ops": ops})
+        # ... also when the firing was suspended on a before-Deferred in between
+        b5 = [{"acts": [], "fin": ["d", 0]}, {"acts": [], "fin": "n"}, {"acts": [["add", ph, 4]], "fin": "n"}, {"acts": [], "fin": "n"},
+              {"acts": [], "fin": "n"}]
+        cases.append({"bodies": b5, "ops": [["add", "b", 0], ["add", ph, 1], ["add", ph, 2], ["add", ph, 3], ["fire"],
+                                            ["add", ph, 1], ["fd", 0, True], ["fire"]]})
     nrand = 400 if tier == "quick" else 8000
     for _ in range(nrand):
         cases.append(_random_case(rng, False))
@@ -383,7 +405,8 @@ SPEC = Spec(
     to_coq=to_coq,
     nontrivial=lambda c, o: sum(o.count(x) for x in ("b", "d", "a")) >= 3,
     histogram=lambda c, o: ("passive" if _passive(c) else "reentrant") + f" triggers<={len(c['bodies'])}",
-    rule="before-triggers returning plain or ALREADY-CALLED, chain-suspended Deferreds (succeed(None).addCallback(lambda _: inner)) "
+    rule="a trigger registering 1-2 triggers into the phase currently firing (before/during/after) from every position among 3-5 "
+         "pending triggers; before-triggers returning plain or ALREADY-CALLED, chain-suspended Deferreds (succeed(None).addCallback(lambda _: inner)) "
          "resolved later in either order with success or failure; before-triggers registering further before-triggers during the "
          "firing; three Deferred-returning before-triggers fired in every order (6) x registrations/removals inserted at every "
          "point of the wait (24) plus a second fireEvent; random histories of 3-40 add/remove/fire/fire-Deferred calls over "
